@@ -93,6 +93,13 @@ func c01SmallScope(full bool) []c01Case {
 		add("variadic", nCall(vfn, append(append([]J{}, args...), nInt(7), nInt(8))...))
 		add("variadic", nCall(vfn, append(append([]J{}, args...), nArr(nInt(7), nInt(8), nInt(9)))...))
 		add("variadic", nCall(vfn, append(append([]J{}, args...), nInt(6), nArr(nInt(7)))...))
+		add("variadic", nDot(nBi("catch", nCall(vfn, append(append([]J{}, args...), nArr())...)), "err"))
+		if n > 0 {
+			// exactly as many arguments as fixed parameters, the last one an (empty) array: it is spread into `..`
+			add("variadic", nDot(nBi("catch", nCall(vfn, append(append([]J{}, args[1:]...), nArr())...)), "err"))
+			add("variadic", nDot(nBi("catch", nCall(vfn, append(append([]J{}, args[1:]...), nArr(nInt(5)))...)), "err"))
+			add("variadic", nDot(nBi("catch", nCall(vfn, append(append([]J{}, args[1:]...), nInf(":", nInt(1), nInt(1)))...)), "err"))
+		}
 	}
 	return out
 }
